@@ -18,7 +18,7 @@ LEVEL = "exploration"
 BATCH = 25
 TIMEOUT = 120
 USES_LAB = False
-REQUIRED_OBS = ["lists_checked", "mode_default", "mode_brief", "mode_minimal", "mode_short", "lists_with_mixed_spelling", "classes_of_size_3plus", "lists_with_multiplicity_twins"]
+REQUIRED_OBS = ["lists_checked", "mode_default", "mode_brief", "mode_minimal", "mode_short", "lists_with_mixed_spelling", "classes_of_size_3plus", "lists_with_multiplicity_twins", "removals_executed", "cli_remove_duplicate_runs"]
 RULE = ("reaction lists of 4-40 reactions with planted classes of size 1-5: members are permutations of reactants/products, "
         "may repeat species, may differ only in temperature window or only in type, may use another spelling of the same "
         "species (e-/E-/E, #X with prefix '#' vs GX with prefix 'G'); modes {default, brief, minimal, short}; non-trivial = at "
@@ -127,6 +127,44 @@ def key(r, mode):
     return k
 
 
+def cli_remove_duplicates(case, ctx, items, obs, viol):
+    import os
+    from cleo.testers.command_tester import CommandTester
+    from naunet.console.application import Application
+    from naunet.species import Species
+    from ..gen import encode
+    Species.reset()
+    d = ctx.fresh_dir("x")
+    (d / "naunet_config.toml").write_text('[chemistry]\n[chemistry.symbol]\ngrain = "GRAIN"\nsurface = "#"\nbulk = "@"\n')
+    lines = [encode.naunet_line(dict(r, idx=i, alpha=1.0 + i, beta=0.0, gamma=0.0, pseudo=None)) for i, r in enumerate(items)]
+    (d / "in.naunet").write_text("\n".join(lines) + "\n")
+    cwd = os.getcwd()
+    os.chdir(d)
+    try:
+        tester = CommandTester(Application().find("extend"))
+        rc = tester.execute("in.naunet out.naunet --remove-duplicate", interactive=False)
+    except Exception as e:
+        viol.append(violation("detector_raised", f"naunet extend --remove-duplicate: {type(e).__name__}: {e}"))
+        return
+    finally:
+        os.chdir(cwd)
+    obs["cli_remove_duplicate_runs"] += 1
+    # file semantics of the window: printed with 2 decimals
+    fkeys = [(tuple(sorted(ident(x) for x in r["reactants"])), tuple(sorted(ident(x) for x in r["products"])), f"{r['tmin']:9.2f}", f"{r['tmax']:9.2f}", r["type"]) for r in items]
+    seen, want = set(), []
+    for i, k in enumerate(fkeys):
+        if k not in seen:
+            want.append(float(f"{1.0 + i:10.3e}"))       # alpha identifies the input line
+        seen.add(k)
+    got = []
+    for line in (d / "out.naunet").read_text().splitlines():
+        if line.strip():
+            got.append(float(line.split(",")[9]))
+    if got != want:
+        viol.append(violation("cli_removal_differs", f"naunet extend --remove-duplicate kept the input lines with alpha {got[:10]} ({len(got)}), one representative "
+                              f"per class in file order is {want[:10]} ({len(want)})"))
+
+
 def run_case(case, ctx):
     from naunet.network import Network
     from naunet.reactions.reaction import Reaction
@@ -186,6 +224,22 @@ def run_case(case, ctx):
         rest = [k for i, k in enumerate(keys) if i not in set(dupidx)]
         if len(rest) != len(set(rest)) or set(rest) != set(keys):
             viol.append(violation("removal_incomplete", f"mode={mode}: after removal {len(rest)} reactions, {len(set(keys))} classes"))
+        # ... and through the real removal: by index on the network itself, then a second report must be empty
+        survivors = [id(r) for i, r in enumerate(net.reaction_list) if i not in set(dupidx)]
+        try:
+            net.remove_reaction(list(dupidx))
+            obs["removals_executed"] += 1
+            if [id(r) for r in net.reaction_list] != survivors:
+                viol.append(violation("removal_wrong_reactions", f"mode={mode}: remove_reaction({list(dupidx)[:8]}) left {len(net.reaction_list)} reactions, "
+                                      f"expected the {len(survivors)} non-reported ones in order"))
+            d2, i2, f2 = net.find_duplicate_reaction(mode)
+            if list(i2):
+                viol.append(violation("duplicates_remain_after_removal", f"mode={mode}: second report lists {list(i2)[:8]}"))
+        except Exception as e:
+            viol.append(violation("detector_raised", f"removal: {type(e).__name__}: {e}"))
+    # ---- the command-line consumer: `naunet extend in out --remove-duplicate` keeps one representative of every class, in file order
+    if mode is None and not case["mixed"] and ctx is not None:
+        cli_remove_duplicates(case, ctx, items, obs, viol)
     nontrivial = any(len(v) > 1 for v in classes.values())
     sample = {"mode": mode, "n": len(items), "classes": sorted(len(v) for v in classes.values() if len(v) > 1), "mixed": case["mixed"],
               "first": f"{items[0]['reactants']} -> {items[0]['products']}"}
